@@ -30,7 +30,7 @@ def atoms(cond, polarity):
     if k == 'bin' and e[1] in ('<', '<=', '>', '>=', '==', '!='):
         op = e[1] if polarity else NEG[e[1]]
         a, b = _assigned_value(e[2]), _assigned_value(e[3])
-        return [_norm(op, sx.key(a), sx.key(b))]
+        return [_norm(op, _okey(a), _okey(b))]
     if k == 'bin' and e[1] == '&&':
         if polarity:
             return atoms(e[2], True) + atoms(e[3], True)
@@ -44,7 +44,18 @@ def atoms(cond, polarity):
     if k is None:
         return []
     v = _assigned_value(e)
-    return [_norm('!=' if polarity else '==', sx.key(v), ('int', 0))]
+    return [_norm('!=' if polarity else '==', _okey(v), ('int', 0))]
+
+
+def _okey(e):
+    """operand key: constants (incl. the null pointer constant (void*)0) are ('int', v)"""
+    v = sx.int_val(e)
+    if v is not None:
+        return ('int', v)
+    s = sx.strip(e)
+    if sx.kind(s) in ('local', 'param'):
+        return sx.key(s)
+    return sx.key(e)
 
 
 def _assigned_value(e):
